@@ -139,6 +139,11 @@ func maskText(m Val) Val {
 			}
 		}
 	case 8: // ERROR [8, ty, req, details, err, args, kw]
+		if len(m.L) > 3 && m.L[3].T == 'd' {
+			if _, ok := m.L[3].Get("error"); ok && len(m.L) > 4 && m.L[4].S == "wamp.error.feature_not_supported" {
+				m.L[3] = m.L[3].Set("error", Str("<text>")) // router-generated text
+			}
+		}
 		if len(m.L) > 5 && m.L[1].T == 'i' && m.L[1].I != "48" && m.L[5].T == 'l' && len(m.L[5].L) > 0 {
 			m.L[5] = List(Str("<text>"))
 		}
